@@ -553,6 +553,11 @@ def compose_keys(k1, k2):
 
 def index(base, key):
     a = base.single_atom() if isinstance(base, Poly) else None
+    if a is not None and a[0] == 'attr' and a[2] == 'shape' and isinstance(key, Slice) and key.step in (NONE, None) and \
+            key.lo in (NONE, None, ZERO) and isinstance(key.hi, Poly) and key.hi.const_value() is not None and \
+            0 <= key.hi.const_value() <= 4:
+        # x.shape[:k]: the first k dimensions (x.shape[:0] is the empty tuple)
+        return Tup([Poly.atom(('idx', a, Poly.const(i))) for i in range(int(key.hi.const_value()))])
     if a is None and isinstance(base, Poly) and len(base.terms) > 1 and _scalar_index(key):
         # (u[1::2] - u[0::2] + 1)[k]: arithmetic of slices is element-wise, so the entry is the arithmetic of the entries
         # (only when every non-constant term is a plain multiple of one slice, which is certainly an array)
